@@ -5,6 +5,7 @@ pub mod c02;
 pub mod c03;
 pub mod c04;
 pub mod c05;
+pub mod c06;
 pub mod c08;
 pub mod c09;
 pub mod c10;
@@ -12,6 +13,8 @@ pub mod c11;
 pub mod c12;
 pub mod c20;
 pub mod c13;
+pub mod c17;
+pub mod c19;
 
 pub fn run(ctx: &Ctx, rep: &mut Report) {
     match ctx.prop.as_str() {
@@ -23,6 +26,78 @@ pub fn run(ctx: &Ctx, rep: &mut Report) {
             }
             Err(e) => rep.inconclusive(&e),
         },
+        "tb-time" => {
+            use crate::oracle::rules::Kind;
+            let t = std::time::Instant::now();
+            let tb = crate::oracle::tb::Tablebases::build(&[Kind::Q, Kind::R, Kind::B, Kind::N, Kind::P]);
+            println!("built in {:?}; max win Q {} R {} P {} B {} N {}", t.elapsed(), tb.max_win(Kind::Q), tb.max_win(Kind::R), tb.max_win(Kind::P), tb.max_win(Kind::B), tb.max_win(Kind::N));
+            println!("legal Q {} R {} P {}", tb.count_legal(Kind::Q), tb.count_legal(Kind::R), tb.count_legal(Kind::P));
+        }
+        "probe-search" => {
+            // wv probe-search --mode "<fen>|<depth>|<workers>"
+            let parts: Vec<&str> = ctx.mode.split('|').collect();
+            let sc = crate::scenario::Scenario { tables: 8, buckets: 1024, hasher_seed: 1, steps: vec![crate::scenario::Step::new(parts[0], parts[1].parse().unwrap(), parts[2].parse().unwrap(), 7)] };
+            let t = std::time::Instant::now();
+            sc.run(&weechess_engine::eval::Evaluator::default(), |_, _, res| {
+                println!("time {:?} nodes {} qnodes {} lines {:?} progress {:?}", t.elapsed(), res.nodes, res.qnodes, res.out.lines.iter().map(|l| (crate::srch::lan_line(&l.0), l.1)).collect::<Vec<_>>(), res.out.progress);
+                true
+            });
+        }
+        "capture-stats" => {
+            let mut rng = crate::gen::shard_rng(ctx.seed, 0, 99);
+            let mut v = vec![];
+            let mut vs = vec![];
+            for _ in 0..300 {
+                let (g, _) = crate::gen::play(&mut rng, &crate::oracle::rules::Pos::start(), 80);
+                for (p, _) in g.iter().step_by(7) {
+                    let mut cap = 200_000i64;
+                    crate::gen::capture_tree(p, &mut cap);
+                    v.push(200_000 - cap.max(0));
+                }
+            }
+            for _ in 0..2000 {
+                let p = crate::gen::sample(&mut rng);
+                if !crate::gen::realistic_material(&p, 1) { continue; }
+                let mut cap = 200_000i64;
+                crate::gen::capture_tree(&p, &mut cap);
+                vs.push(200_000 - cap.max(0));
+            }
+            v.sort();
+            vs.sort();
+            let q = |v: &Vec<i64>, f: f64| v[((v.len() - 1) as f64 * f) as usize];
+            println!("play n={} p50={} p90={} p99={} max={}", v.len(), q(&v, 0.5), q(&v, 0.9), q(&v, 0.99), q(&v, 1.0));
+            println!("sample-realistic n={} p50={} p90={} p99={} max={}", vs.len(), q(&vs, 0.5), q(&vs, 0.9), q(&vs, 0.99), q(&vs, 1.0));
+        }
+        "q-cost" => {
+            for f in ctx.mode.split('|') {
+                let p = crate::oracle::rules::Pos::from_fen(f).unwrap();
+                let t = std::time::Instant::now();
+                println!("QCOST {} {:?} {}", crate::gen::q_cost(&p, 2_000_000), t.elapsed(), f);
+            }
+        }
+        "gen-fens" => {
+            let mut rng = crate::gen::shard_rng(ctx.seed, 0, 98);
+            let corpus = crate::gen::corpus();
+            for _ in 0..300 {
+                let p = match ctx.mode.as_str() {
+                    "play" => {
+                        let plies = rand::Rng::gen_range(&mut rng, 0..80);
+                        crate::gen::play(&mut rng, &crate::oracle::rules::Pos::start(), plies).1
+                    }
+                    "sample" => crate::gen::sample(&mut rng),
+                    "realistic" => loop {
+                        let p = crate::gen::sample(&mut rng);
+                        if crate::gen::realistic_material(&p, 1) {
+                            break p;
+                        }
+                    },
+                    _ => crate::mon::c03::random_root(&mut rng, &corpus),
+                };
+                if !p.legal_moves().is_empty() {
+                    println!("FEN {}", p.fen());
+                }
+            }
+        }
         "corpus-lint" => {
             for b in crate::gen::corpus_lint() {
                 println!("{}", b);
@@ -33,6 +108,7 @@ pub fn run(ctx: &Ctx, rep: &mut Report) {
         "C03" => c03::run(ctx, rep),
         "C04" => c04::run(ctx, rep),
         "C05" => c05::run(ctx, rep),
+        "C06" => c06::run(ctx, rep),
         "C08" => c08::run(ctx, rep),
         "C09" => c09::run(ctx, rep),
         "C10" => c10::run(ctx, rep),
@@ -40,6 +116,8 @@ pub fn run(ctx: &Ctx, rep: &mut Report) {
         "C12" => c12::run(ctx, rep),
         "C20" => c20::run(ctx, rep),
         "C13" => c13::run(ctx, rep),
+        "C17" => c17::run(ctx, rep),
+        "C19" => c19::run(ctx, rep),
         other => rep.inconclusive(&format!("unknown property {}", other)),
     }
 }
